@@ -54,4 +54,11 @@ def dictKeys (d : List (Addr × Bool)) : List Addr := d.map (·.1)
 /-- `d[k]` (a missing key is a `KeyError` in Python) -/
 def dictGet (d : List (Addr × Bool)) (k : Addr) : Bool := (d.lookup k).getD false
 
+/-- `network.hosts` (address → scenario `Host`) as the configuration rows in address-space order -/
+def hostItems (rows : List Row) : List (Addr × Row) := rows.map fun r => (r.addr, r)
+/-- `network.hosts[addr]` -/
+def hostAt (rows : List Row) (a : Addr) : Row := (rows.find? (fun r => r.addr == a)).getD default
+/-- `network.host_num_map`: address → position in the address space -/
+def numMapOf (rows : List Row) : List (Addr × Nat) := (rows.map (·.addr)).zip (List.range rows.length)
+
 end NASim.PyRt
